@@ -66,7 +66,9 @@ Proof. exact exhausted_key_rekeys. Qed.
 Print Assumptions C04_exhausted_key_rekeys.
 
 (* Slice model: a transmitted counter at or beyond 2^60 starts a handshake
-   (exactly one initiation; none within 5 s of the previous one). *)
+   (exactly one initiation; none within 5 s of the previous one).  The current
+   keypair k is arbitrary -- in particular its role kinit k: the rule holds
+   whether the device initiated the session or answered it. *)
 Theorem C04_rekey_after_2_60 : forall s k pkts,
   cur s = Some k -> knonce k < Reject -> pkts <> [] ->
   let '(s', o) := dstep s (TunBatch pkts) in
@@ -75,6 +77,21 @@ Theorem C04_rekey_after_2_60 : forall s k pkts,
   Forall (fun t => kix t = kidx k /\ knonce k <= ctr t /\ ctr t < Reject) (o_tx o).
 Proof. exact rekey_after_2_60. Qed.
 Print Assumptions C04_rekey_after_2_60.
+
+(* The same through the responder path, spelled out: the remote party
+   initiates (RefInit), confirms with data (RefData: "next" becomes current with
+   isInitiator = false), the counter is put at v; then a TUN batch that sends a
+   counter >= 2^60 makes the device itself start a handshake. *)
+Theorem C04_rekey_after_2_60_as_responder : forall s idx v pkts,
+  v < Reject -> pkts <> [] -> staged s = [] ->
+  let s1 := fst (dstep s (RefInit idx)) in
+  let s2 := fst (dstep s1 RefData) in
+  let s3 := fst (dstep (fst (dstep s2 AllowInit)) (SetNonce v)) in
+  cur s3 = Some {| kidx := idx; knonce := v; kinit := false |} /\
+  let o := snd (dstep s3 (TunBatch pkts)) in
+  ((exists t, In t (o_tx o) /\ Rekey <= ctr t) -> o_init o = 1).
+Proof. exact rekey_after_2_60_as_responder. Qed.
+Print Assumptions C04_rekey_after_2_60_as_responder.
 
 (* Slice model, every history: with fresh receiver indices from the remote
    party and hook calls that only raise the counter, no (receiver index, counter)
@@ -116,4 +133,17 @@ Example C04_nonvacuous_slice :
     {| o_tx := []; o_init := 0 |};
     {| o_tx := [(7, Reject - 2, 2); (7, Reject - 1, 3)]; o_init := 1 |};
     {| o_tx := [(8, 0, 4); (8, 1, 5)]; o_init := 0 |} ].
+Proof. vm_compute. reflexivity. Qed.
+
+(* The device as RESPONDER: the remote party initiates and confirms; at 2^60 the
+   device starts a handshake of its own; near the limit the batch is split. *)
+Example C04_nonvacuous_responder :
+  outs dstep dinit [RefInit 9; RefData; AllowInit; SetNonce (Rekey - 1); TunBatch [1; 2; 3];
+                    AllowInit; SetNonce (Reject - 1); TunBatch [4; 5]; Answer 10] =
+  [ {| o_tx := []; o_init := 0 |}; {| o_tx := []; o_init := 0 |}; {| o_tx := []; o_init := 0 |};
+    {| o_tx := []; o_init := 0 |};
+    {| o_tx := [(9, Rekey - 1, 1); (9, Rekey, 2); (9, Rekey + 1, 3)]; o_init := 1 |};
+    {| o_tx := []; o_init := 0 |}; {| o_tx := []; o_init := 0 |};
+    {| o_tx := [(9, Reject - 1, 4)]; o_init := 1 |};
+    {| o_tx := [(10, 0, 5)]; o_init := 0 |} ].
 Proof. vm_compute. reflexivity. Qed.
